@@ -200,37 +200,40 @@ static async_queue_t *Q;
 static int q_policy, q_cap = 2, q_total;
 static const char *polname[] = { "fail", "drop-oldest", "block-writer" };
 
-static int h_call (int thr, char kind, int arg) {
+static long stamp (void) { return __atomic_add_fetch (&lclock, 1, __ATOMIC_SEQ_CST); }
+/* one completed operation: [t_call, t_ret] are logical-clock stamps taken before the call and after the return */
+static void h_add (int thr, char kind, int arg, int ret, int val, long t_call, long t_ret) {
   int i = __atomic_fetch_add (&nH, 1, __ATOMIC_SEQ_CST);
   if (i >= MAXH) { failf ("C19:harness:history-full", "history full"); vx_child_exit (0); }
-  H[i].thr = thr; H[i].kind = kind; H[i].arg = arg; H[i].t_ret = 0;
-  H[i].t_call = __atomic_add_fetch (&lclock, 1, __ATOMIC_SEQ_CST);
-  return i;
-}
-static void h_ret (int i, int ret, int val) {
-  H[i].ret = ret; H[i].val = val;
-  H[i].t_ret = __atomic_add_fetch (&lclock, 1, __ATOMIC_SEQ_CST);
+  H[i].thr = thr; H[i].kind = kind; H[i].arg = arg; H[i].ret = ret; H[i].val = val; H[i].t_call = t_call; H[i].t_ret = t_ret;
 }
 static void *producer_fn (void *a) {
   int p = (int) (long) a;
   for (int i = 0; i < 2; i++) {
     int v = p * 10 + i + 1;
-    int h = h_call (p, 'E', v);
+    long tc = stamp ();
     int r = async_queue_enqueue (Q, &v, sizeof v);
-    h_ret (h, r, 0);
+    h_add (p, 'E', v, r, 0, tc, stamp ());
   }
   return 0;
 }
+static int do_dequeue (int thr, int keep_empty) {
+  int v = -1; size_t sz = 0;
+  long tc = stamp ();
+  int r = async_queue_dequeue (Q, &v, sizeof v, &sz);
+  long tr = stamp ();
+  if (r || keep_empty) h_add (thr, 'D', 0, r, r ? v : 0, tc, tr);
+  return r;
+}
 static void *consumer_fn (void *a) {
   (void) a;
-  int got = 0;
+  int got = 0, empties = 0;
   for (int i = 0; q_policy == 2 ? got < q_total : i < 4; i++) {
-    int v = -1; size_t sz = 0;
-    int h = h_call (3, 'D', 0);
-    int r = async_queue_dequeue (Q, &v, sizeof v, &sz);
-    h_ret (h, r, r ? v : 0);
-    if (r) got++;
-    else if (q_policy == 2) msleep (1);
+    /* a long run of "empty" answers is recorded only up to 6 in a row (dropping an operation from the
+     * history only removes constraints); if the producers are stuck the scheduler's horizon reports it */
+    int r = do_dequeue (3, empties < 6);
+    if (r) { got++; empties = 0; }
+    else { empties++; if (q_policy == 2) msleep (1); }
   }
   return 0;
 }
@@ -274,13 +277,7 @@ static void body_queue (void) {
   g_call = "pthread_join";
   for (int i = 0; i < 3; i++) pthread_join (th[i], 0);
   g_call = "drain";
-  for (int i = 0; i < q_cap + 1; i++) {
-    int v = -1; size_t sz = 0;
-    int h = h_call (0, 'D', 0);
-    int r = async_queue_dequeue (Q, &v, sizeof v, &sz);
-    h_ret (h, r, r ? v : 0);
-    if (!r) break;
-  }
+  for (int i = 0; i < q_cap + 1; i++) if (!do_dequeue (0, 1)) break;
   async_queue_stats_t st; async_queue_get_stats (Q, &st);
   g_call = "-";
   sched_end ();
@@ -492,10 +489,13 @@ static void body_console (void) {
   sched_track_fd (STDIN_FILENO); sched_track_fd (pfd[1]);
   rt = async_runtime_init ();
   async_queue_t *q = async_queue_create (8, CONSOLE_MAX_LINE, ASYNC_QUEUE_DROP_OLDEST);
+  /* the driver has written many start-up lines before init_user_conn() creates the console worker, so the
+   * logger's lazily initialised globals are already set when the worker thread logs "Console worker started" */
+  debug_message ("{}\tboot messages precede the console worker");
   g_call = "console_worker_init";
   console_worker_context_t *cw = console_worker_init (rt, q, CONSOLE_COMPLETION_KEY);
   if (!cw || !cw->worker) { failf ("C19:harness:console-init", "console_worker_init: no worker (type %d)", cw ? (int) cw->console_type : -1); vx_child_exit (0); }
-  debug_message ("{}\tconsole worker initialized (type %s)", console_type_str (cw->console_type));   /* as init_user_conn() does */
+  debug_message ("{}\ttimer started");         /* main keeps logging while the worker starts (backend() does) */
   char written[200] = "", delivered[400] = ""; size_t nw = 0, nd = 0;
   g_call = "write";
   for (int i = 0; i < nlines; i++) {
@@ -585,65 +585,7 @@ static long g_iters;
 static const char *bname (int b) { return b == 1 ? "post" : b == 2 ? "queue" : b == 3 ? "worker" : b == 4 ? "timer" : b == 5 ? "console" : "?"; }
 static void describe (long i, char *buf, size_t len) { snprintf (buf, len, "free-running %s variant %d x %ld iterations", bname (EL[i].body), EL[i].variant, g_iters); }
 
-static const char *repo_pfx (void) { const char *p = getenv ("VX_REPO_PREFIX"); return p && *p ? p : "/repo/"; }
-/* first frame of a stack that lies in the repo: "file.c:function" */
-static void site_of (char *stack, char *out, size_t len) {
-  snprintf (out, len, "?");
-  for (char *l = stack; l && *l; ) {
-    char *nl = strchr (l, '\n'); if (nl) *nl = 0;
-    char *p = l; while (*p == ' ') p++;
-    if (*p != '#') { if (nl) *nl = '\n'; break; }
-    char fn[100] = "", path[300] = "";
-    if (sscanf (p, "#%*d %99s %299s", fn, path) == 2 && !strncmp (path, repo_pfx (), strlen (repo_pfx ()))) {
-      char *c = strchr (path, ':'); if (c) *c = 0;
-      char *b = strrchr (path, '/');
-      snprintf (out, len, "%s:%s", b ? b + 1 : path, fn);
-      if (nl) *nl = '\n';
-      return;
-    }
-    if (nl) { *nl = '\n'; l = nl + 1; } else break;
-  }
-}
-static void scan_tsan (off_t from) {
-  off_t end = lseek (2, 0, SEEK_END);
-  if (end <= from) return;
-  size_t n = (size_t) (end - from);
-  char *buf = malloc (n + 1);
-  ssize_t r = pread (2, buf, n, from);
-  if (r <= 0) { free (buf); return; }
-  buf[r] = 0;
-  for (char *w = strstr (buf, "WARNING: ThreadSanitizer: "); w; ) {
-    char *next = strstr (w + 10, "WARNING: ThreadSanitizer: ");
-    if (next) next[-1] = 0;
-    char kind[60]; size_t kl = strcspn (w + 26, "(\n"); if (kl >= sizeof kind) kl = sizeof kind - 1;
-    memcpy (kind, w + 26, kl); kind[kl] = 0;
-    while (kl && kind[kl - 1] == ' ') kind[--kl] = 0;
-    for (char *q = kind; *q; q++) if (*q == ' ') *q = '-';
-    char s1[200] = "?", s2[200] = "?", a1[12] = "", a2[12] = "";
-    /* first access: line after the "WARNING" line; second: after "Previous ..." */
-    char *l1 = strchr (w, '\n');
-    if (l1) {
-      l1++;
-      while (*l1 == ' ') l1++;
-      sscanf (l1, "%11s", a1);
-      char *st = strchr (l1, '\n'); if (st) { char *cp = strdup (st + 1); site_of (cp, s1, sizeof s1); free (cp); }
-    }
-    char *pv = strstr (w, "Previous ");
-    if (pv) {
-      sscanf (pv + 9, "%11s", a2);
-      char *st = strchr (pv, '\n'); if (st) { char *cp = strdup (st + 1); site_of (cp, s2, sizeof s2); free (cp); }
-    }
-    for (char *q = a1; *q; q++) if (*q >= 'A' && *q <= 'Z') *q += 32;
-    char k1[230], k2[230], key[220];
-    snprintf (k1, sizeof k1, "%s@%s", a1, s1); snprintf (k2, sizeof k2, "%s@%s", a2, s2);
-    if (strcmp (k1, k2) > 0) { char t[230]; strcpy (t, k1); strcpy (k1, k2); strcpy (k2, t); }
-    snprintf (key, sizeof key, "tsan:%s:%s|%s", kind, k1, k2);
-    char first[400]; size_t fl = strcspn (w, "\n"); if (fl >= sizeof first) fl = sizeof first - 1; memcpy (first, w, fl); first[fl] = 0;
-    vx_fail (key, "%s ; sites: %s vs %s (free-running %s variant %d)", first, k1, k2, g_bodyname, g_variant);
-    w = next;
-  }
-  free (buf);
-}
+#include "c19_tsan.h"
 static void elem_fn (long idx) {
   off_t from = lseek (2, 0, SEEK_END);
   g_body = EL[idx].body;
@@ -652,6 +594,7 @@ static void elem_fn (long idx) {
     body ();
   }
   vx_count (5, g_iters);
+  c19_tsan_what = g_bodyname; c19_tsan_variant = g_variant;
   scan_tsan (from);
 }
 #endif
